@@ -115,6 +115,8 @@ void wbxml_tree_clb_xml_start_element(void           *ctx,
 {
     WBXMLTreeClbCtx *tree_ctx = (WBXMLTreeClbCtx *) ctx;
     const WBXMLLangEntry *lang_table = NULL;
+    WBXMLTreeNode *parent = NULL;
+    WB_ULONG depth = 0;
 
     WBXML_DEBUG((WBXML_PARSER, "Expat element start callback ('%s')", localName));
 
@@ -174,6 +176,15 @@ void wbxml_tree_clb_xml_start_element(void           *ctx,
     }
 
 #endif /* WBXML_SUPPORT_SYNCML */
+
+    /* Refuse too deeply nested documents (the tree is walked recursively afterwards) */
+    for (parent = tree_ctx->current; parent != NULL; parent = parent->parent)
+        depth++;
+
+    if (depth >= WBXML_MAX_NESTING_DEPTH) {
+        tree_ctx->error = WBXML_ERROR_NESTING_TOO_DEEP;
+        return;
+    }
 
     /* Add Element Node */
     tree_ctx->current = wbxml_tree_add_xml_elt_with_attrs(tree_ctx->tree,
